@@ -39,6 +39,10 @@ theorem C15_tool_renames_agree_with_table :
     accepted when imported twice, once with the public signature and once with a perturbed one -/
 theorem C15_signature_checked_at_every_occurrence : toolAcceptsDupBadSig = [] := by decide +kernel
 
+/-- the tool takes no other spelling of the module name for the API namespace: of the probed names
+    `shopify_function_v<x>` (other numbers, leading zeros, a sign, suffixes, nothing) none is accepted -/
+theorem C15_only_the_documented_module_name : toolAcceptsOtherModuleNames = [] := by decide +kernel
+
 /-- one import module name everywhere, and it is `shopify_function_v<major>` of provider and trampoline -/
 theorem C15_module_name :
     moduleNamesWat = [moduleNameHeader] ∧ moduleNameHeaderImports = [moduleNameHeader] ∧
